@@ -23,7 +23,7 @@ ASSUME = [
 def gen(seed, i, tier):
     r = core.Rng("c05", seed, i)
     kind = ["resistor", "wall", "csr"][i % 3]
-    n = r.choice([128, 128, 192, 256] if tier == "thorough" else [128, 128, 160])
+    n = r.choice([128, 129, 192, 256] if tier == "thorough" else [128, 129, 160])        # even and odd meshes
     steps = r.choice([400, 500, 800, 1000])
     if i % 4 == 3:
         n = r.choice([80, 96, 112])              # coarse mesh with very many steps per period: the wake creeps slowly
